@@ -127,8 +127,13 @@ func c08(c *Ctx) {
 		hists = append(hists, c.genHistory(4+c.R.Intn(c.N(12, 30)), uris))
 	}
 	real := c.composeReal(bufferContents)
+	logs := make([][][]PEvent, len(hists))
+	defer func() { c.Rep.TieCases = 0; c.tieProxy(hists, logs) }()
 	for hi, h := range hists {
 		log, err := c.runProxy(h)
+		if err == nil {
+			logs[hi] = log
+		}
 		c.Rep.OracleCases++
 		c.Rep.TieCases++
 		if err != nil || len(log) != len(h) {
